@@ -68,13 +68,12 @@ theorem open_attached {s : St} (hi : Inv s) {i : Nat} (hlt : i < s.nsubs) (hs : 
 structure Cnt (s s' : St) : Prop where
   nsubs : s'.nsubs = s.nsubs
   ngens : s'.ngens = s.ngens
-  panics : s'.panics = s.panics
 
-theorem Cnt.refl (s : St) : Cnt s s := ⟨rfl, rfl, rfl⟩
+theorem Cnt.refl (s : St) : Cnt s s := ⟨rfl, rfl⟩
 theorem Cnt.trans {a b c : St} (h1 : Cnt a b) (h2 : Cnt b c) : Cnt a c :=
-  ⟨h2.nsubs.trans h1.nsubs, h2.ngens.trans h1.ngens, h2.panics.trans h1.panics⟩
-theorem Only.cnt {i : Nat} {s s' : St} (h : Only i s s') : Cnt s s' := ⟨h.nsubs, h.ngens, h.panics⟩
-theorem GensOnly.cnt {s s' : St} (h : GensOnly s s') : Cnt s s' := ⟨h.nsubs, h.ngens, h.panics⟩
+  ⟨h2.nsubs.trans h1.nsubs, h2.ngens.trans h1.ngens⟩
+theorem Only.cnt {i : Nat} {s s' : St} (h : Only i s s') : Cnt s s' := ⟨h.nsubs, h.ngens⟩
+theorem GensOnly.cnt {s s' : St} (h : GensOnly s s') : Cnt s s' := ⟨h.nsubs, h.ngens⟩
 
 theorem foldl_cnt {α : Type} (f : St → α → St) (hf : ∀ s a, Cnt s (f s a)) (l : List α) (s : St) :
     Cnt s (l.foldl f s) := by
@@ -83,27 +82,27 @@ theorem foldl_cnt {α : Type} (f : St → α → St) (hf : ∀ s a, Cnt s (f s a
   | cons a l ih => exact (hf s a).trans (ih (f s a))
 
 theorem subjNext_cnt (conn : Conn) (g : Nat) (v : Int) (s : St) : Cnt s (subjNext conn g v s) :=
-  let h := subjNext_sim conn g v s; ⟨h.nsubs, h.ngens, h.panics⟩
+  let h := subjNext_sim conn g v s; ⟨h.nsubs, h.ngens⟩
 
 theorem pNext_cnt (cfg : Cfg) (g : Nat) (v : Int) (s : St) : Cnt s (pNext cfg g v s) :=
-  let h := pNext_sim cfg g v s; ⟨h.nsubs, h.ngens, h.panics⟩
+  let h := pNext_sim cfg g v s; ⟨h.nsubs, h.ngens⟩
 
 theorem subjTerm_cnt (fl : Flags) (g : Nat) (t : Ev) (s : St) : Cnt s (subjTerm fl g t s) := by
   unfold subjTerm
   split
-  · have h1 : Cnt s (s.modGen g fun x => { x with subj := { x.subj with status := Status.ofTerminal t } }) := ⟨rfl, rfl, rfl⟩
+  · have h1 : Cnt s (s.modGen g fun x => { x with subj := { x.subj with status := Status.ofTerminal t } }) := ⟨rfl, rfl⟩
     have h2 := foldl_cnt (fun s i => dTerm fl i t s) (fun s i => (dTerm_only fl i t s).cnt)
       (((s.modGen g fun x => { x with subj := { x.subj with status := Status.ofTerminal t } }).gens g).subj.obs)
       (s.modGen g fun x => { x with subj := { x.subj with status := Status.ofTerminal t } })
-    exact (h1.trans h2).trans ⟨rfl, rfl, rfl⟩
-  · exact ⟨rfl, rfl, rfl⟩
+    exact (h1.trans h2).trans ⟨rfl, rfl⟩
+  · exact ⟨rfl, rfl⟩
 
 theorem pTerm_cnt (cfg : Cfg) (g : Nat) (t : Ev) (s : St) : Cnt s (pTerm cfg g t s) := by
   unfold pTerm
   split
-  · have h1 : Cnt s (s.modGen g fun x => { x with pStatus := t.code }) := ⟨rfl, rfl, rfl⟩
+  · have h1 : Cnt s (s.modGen g fun x => { x with pStatus := t.code }) := ⟨rfl, rfl⟩
     exact ((h1.trans (pDecide_go cfg.flags g t _).cnt).trans (subjTerm_cnt cfg.flags g t _)).trans (pSubnUnsub_go g _).cnt
-  · have h1 : Cnt s (s.drop t) := ⟨rfl, rfl, rfl⟩
+  · have h1 : Cnt s (s.drop t) := ⟨rfl, rfl⟩
     exact h1.trans (pSubnUnsub_go g _).cnt
 
 theorem pEmit_cnt (cfg : Cfg) (g : Nat) (x : Ev) (s : St) : Cnt s (pEmit cfg g x s) := by
@@ -126,33 +125,28 @@ theorem push_cnt (cfg : Cfg) (x : Ev) (s : St) : Cnt s (push cfg x s) := by
 /-! ### how a `sub` event ends -/
 
 /-- the creator of a new generation: after the synchronous prefix `cfg.pre k` the generation is
-    live, or already reset (the nil dereference), or latched -/
+    live, or already reset (the reference is given back at once), or latched -/
 theorem subscribe_fresh_outcome (cfg : Cfg) {s : St} (hi : Inv s) (hsub : s.subject = none) :
-    ∃ u, u.panics = s.panics ∧
+    ∃ u,
       ((FLive s.ngens s.nsubs u ∧ subscribe cfg s = liveDone s.nsubs s.ngens u) ∨
-       ((∃ k, SafePre cfg.flags (cfg.pre k) = false) ∧ FReset s.ngens s.nsubs u ∧
-          subscribe cfg s = (if cfg.fixed then resetDoneFixed s.ngens u else resetDone s.ngens u)) ∨
+       (FReset s.ngens s.nsubs u ∧ subscribe cfg s = resetDone s.ngens u) ∨
        (FLatch s.ngens s.nsubs u ∧ subscribe cfg s = latchDone s.ngens u)) := by
   obtain ⟨u0, k, hsim, he⟩ := subscribe_fresh_eq cfg hi hsub
   have hl := (flive_freshState cfg.conn hi hsub).sim hsim
-  refine ⟨playPre cfg s.ngens (cfg.pre k) u0, ?_, ?_⟩
-  · rw [(playPre_cnt cfg s.ngens (cfg.pre k) u0).panics, hsim.panics]; rfl
-  · rw [he]
-    rcases playPre_live cfg (cfg.pre k) hl with h | ⟨hns, h⟩ | h
-    · exact Or.inl ⟨h, (finish_live cfg.fixed cfg.flags h).1⟩
-    · refine Or.inr (Or.inl ⟨⟨k, hns⟩, h, ?_⟩)
-      cases hfx : cfg.fixed
-      · simpa using (finish_reset cfg.flags h).1
-      · simpa using (finish_reset_fixed cfg.flags h).1
-    · exact Or.inr (Or.inr ⟨h, (finish_latch cfg.fixed cfg.flags h).1⟩)
+  refine ⟨playPre cfg s.ngens (cfg.pre k) u0, ?_⟩
+  rw [he]
+  rcases playPre_live cfg (cfg.pre k) hl with h | h | h
+  · exact Or.inl ⟨h, (finish_live cfg.flags h).1⟩
+  · exact Or.inr (Or.inl ⟨h, (finish_reset cfg.flags h).1⟩)
+  · exact Or.inr (Or.inr ⟨h, (finish_latch cfg.flags h).1⟩)
 
 theorem subscribe_ngens (cfg : Cfg) {s : St} (hi : Inv s) :
     (subscribe cfg s).ngens = if s.subject = none then s.ngens + 1 else s.ngens := by
   cases hsub : s.subject with
   | none =>
-    obtain ⟨u, _, h | ⟨_, h⟩ | h⟩ := subscribe_fresh_outcome cfg hi hsub
+    obtain ⟨u, h | h | h⟩ := subscribe_fresh_outcome cfg hi hsub
     · rw [h.2]; simp [liveDone, h.1.ngens]
-    · rw [h.2]; split <;> simp [resetDone, resetDoneFixed, h.1.ngens]
+    · rw [h.2]; simp [resetDone, h.1.ngens]
     · rw [h.2]; simp [latchDone, h.1.ngens]
   | some g =>
     rcases (hi.cur g hsub).2 with ha | hl
@@ -205,10 +199,10 @@ theorem closeState_counters (c : Nat) (tr : List Ev) (i g : Nat) (s : St) :
     simp [closeState]; split <;> simp_all
 
 /-- **released at 1→0 when `ResetOnRefCountZero`**: the last open subscriber leaves, no terminal
-    is latched (an open subscriber exists, so the generation is live) and no reference was leaked
-    by the nil dereference: the upstream subscription is released and the shared pair cleared -/
+    is latched (an open subscriber exists, so the generation is live): the upstream subscription is
+    released and the shared pair cleared -/
 theorem unsub_last_releases (cfg : Cfg) {s : St} {i : Nat} (hi : Inv s) (hz : cfg.flags.onZero = true)
-    (hp : s.panics = 0) (ho : openSubs s = [i]) :
+    (ho : openSubs s = [i]) :
     (step cfg s (.unsub i)).live = 0 ∧ (step cfg s (.unsub i)).subject = none := by
   have hmem : i ∈ openSubs s := by rw [ho]; simp
   obtain ⟨hlt, hs⟩ := mem_openSubs.mp hmem
@@ -217,7 +211,7 @@ theorem unsub_last_releases (cfg : Cfg) {s : St} {i : Nat} (hi : Inv s) (hz : cf
   have hstep : step cfg s (.unsub i) = dUnsubscribe cfg.flags i s := by simp [step, hlt]
   rw [hstep] at *
   have ho' := ha.subs i hlt hs
-  have hrc : s.refCount = 1 := by rw [hi.count, ho, hp]; rfl
+  have hrc : s.refCount = 1 := by rw [hi.count, ho]; rfl
   have hcond : (cfg.flags.onZero && (closeState 2 (s.subs i).trace i g s).refCount == 0 &&
       !(closeState 2 (s.subs i).trace i g s).flagE && !(closeState 2 (s.subs i).trace i g s).flagC) = true := by
     simp [closeState, hz, hrc, ha.flagE, ha.flagC]
@@ -235,7 +229,7 @@ theorem unsub_last_releases (cfg : Cfg) {s : St} {i : Nat} (hi : Inv s) (hz : cf
 /-- **…and kept otherwise**: without `ResetOnRefCountZero`, or while another subscriber stays, an
     `unsub` event never touches the upstream subscription -/
 theorem unsub_keeps (cfg : Cfg) {s : St} (i : Nat) (hi : Inv s)
-    (h : cfg.flags.onZero = false ∨ 2 ≤ (openSubs s).length ∨ s.panics ≠ 0) :
+    (h : cfg.flags.onZero = false ∨ 2 ≤ (openSubs s).length) :
     (step cfg s (.unsub i)).live = s.live ∧ (step cfg s (.unsub i)).total = s.total ∧
       (step cfg s (.unsub i)).subject = s.subject := by
   by_cases hlt : i < s.nsubs
@@ -249,10 +243,8 @@ theorem unsub_keeps (cfg : Cfg) {s : St} (i : Nat) (hi : Inv s)
       have hcount := hi.count
       have hcond : (cfg.flags.onZero && (closeState 2 (s.subs i).trace i g s).refCount == 0 &&
           !(closeState 2 (s.subs i).trace i g s).flagE && !(closeState 2 (s.subs i).trace i g s).flagC) = false := by
-        rcases h with h | h | h
+        rcases h with h | h
         · simp [h]
-        · have : (closeState 2 (s.subs i).trace i g s).refCount ≠ 0 := by simp only [closeState]; omega
-          simp [this]
         · have : (closeState 2 (s.subs i).trace i g s).refCount ≠ 0 := by simp only [closeState]; omega
           simp [this]
       rw [zeroReset_noop hcond]
@@ -698,52 +690,6 @@ theorem src_terminal (cfg : Cfg) {s : St} {g : Nat} (t : Ev) (ht : t.isTerminal 
   rw [hf1, hf2]
   simp [pDecide_sk cfg.flags g t _ g]
 
-/-! ### the reference count; the nil dereference and what it leaks -/
-
-/-- a step leaks a reference (nil dereference) only in a `sub` event that creates a generation whose
-    synchronous prefix is not `SafePre` -/
-theorem panics_step (cfg : Cfg) {s : St} (hi : Inv s) (e : Event) :
-    (step cfg s e).panics = s.panics ∨
-    ((step cfg s e).panics = s.panics + 1 ∧ e = .sub ∧ s.subject = none ∧ cfg.fixed = false ∧
-      ∃ k, SafePre cfg.flags (cfg.pre k) = false) := by
-  cases e with
-  | sub =>
-    show (subscribe cfg s).panics = _ ∨ _
-    cases hsub : s.subject with
-    | none =>
-      obtain ⟨u, hu, h | ⟨hns, h⟩ | h⟩ := subscribe_fresh_outcome cfg hi hsub
-      · left; rw [h.2]; simp [liveDone, hu]
-      · cases hfx : cfg.fixed
-        · right; refine ⟨?_, rfl, rfl, rfl, hns⟩; show (subscribe cfg s).panics = _; rw [h.2, hfx]; simp [resetDone, hu]
-        · left; show (subscribe cfg s).panics = _; rw [h.2, hfx]; simp [resetDoneFixed, hu]
-      · left; rw [h.2]; simp [latchDone, hu]
-    | some g =>
-      left
-      rcases (hi.cur g hsub).2 with ha | hl
-      · rw [(subscribe_join_active cfg hi hsub ha).panics]; rfl
-      · obtain ⟨c, _, hsim⟩ := subscribe_join_latched cfg hi hsub hl
-        rw [hsim.panics]; rfl
-  | unsub i =>
-    left
-    simp only [step]
-    split
-    · exact (dUnsubscribe_only cfg.flags i s).panics
-    · rfl
-  | src x => left; exact (push_cnt cfg x s).panics
-
-theorem panics_run_safe (cfg : Cfg) (hsafe : cfg.Safe ∨ cfg.fixed = true) (evs : List Event) : (run cfg evs).panics = 0 := by
-  suffices h : ∀ (s : St), Inv s → s.panics = 0 → (evs.foldl (step cfg) s).panics = 0 from h {} Inv.init rfl
-  induction evs with
-  | nil => intro s _ h; exact h
-  | cons e es ih =>
-    intro s hi hp
-    apply ih (step cfg s e) (inv_step cfg hi e)
-    rcases panics_step cfg hi e with h | ⟨_, _, _, hfx, k, hk⟩
-    · rw [h]; exact hp
-    · rcases hsafe with hsafe | hsafe
-      · rw [hsafe k] at hk; cases hk
-      · rw [hsafe] at hfx; cases hfx
-
 /-! ### nobody else's trace is touched by `sub` / `unsub` -/
 
 theorem unsub_traces (cfg : Cfg) (s : St) (i k : Nat) : ((step cfg s (.unsub i)).subs k).trace = (s.subs k).trace := by
@@ -790,7 +736,7 @@ theorem fresh_hot_trace (cfg : Cfg) (hhot : cfg.Hot) {s : St} (hi : Inv s) (hsub
   obtain ⟨u0, k, hsim, he⟩ := subscribe_fresh_eq cfg hi hsub
   have hl := (flive_freshState cfg.conn hi hsub).sim hsim
   have hpre : playPre cfg s.ngens (cfg.pre k) u0 = u0 := by rw [hhot k]; rfl
-  obtain ⟨hfe, hfi, hfa, hfs⟩ := finish_live cfg.fixed cfg.flags hl
+  obtain ⟨hfe, hfi, hfa, hfs⟩ := finish_live cfg.flags hl
   have hfinal : subscribe cfg s = liveDone s.nsubs s.ngens u0 := by rw [he, hpre, hfe]
   have hlive : (subscribe cfg s).live = 1 := by
     have hinv := subscribe_cases cfg hi
@@ -802,7 +748,7 @@ theorem fresh_hot_trace (cfg : Cfg) (hhot : cfg.Hot) {s : St} (hi : Inv s) (hsub
     unfold r3 srcSubscribe
     rw [hhot]
     have hbuf : (Subj.new cfg.conn).buf = [] := by cases cfg.conn <;> rfl
-    cases hc : cfg.conn <;> cases hfx : cfg.fixed <;>
+    cases hc : cfg.conn <;>
       simp [playPre, upAddTeardown, r3tail, ssAdd, addTeardown, subjRegister, newSub, Spec.joined, Subj.new] <;>
       (repeat' split) <;> simp_all [Subj.new]
   · rw [hfinal]
@@ -812,7 +758,6 @@ theorem fresh_hot_trace (cfg : Cfg) (hhot : cfg.Hot) {s : St} (hi : Inv s) (hsub
     rw [hsubscribe, eL, eR, e1]
     unfold r3 srcSubscribe
     rw [hhot]
-    cases hfx : cfg.fixed <;> simp [playPre, upAddTeardown, r3tail, ssAdd, addTeardown, subjRegister, newSub, hk'] <;>
-      (repeat' split) <;> simp_all
+    simp [playPre, upAddTeardown, r3tail, ssAdd, addTeardown, subjRegister, newSub, hk']
 
 end Ro.Share
